@@ -1682,6 +1682,12 @@ class Interp:
             return OpaqueStr()
         if all(isinstance(p, str) for p in parts):
             return "".join(parts)
+        from .strlib import Rope, rope_of, simple_norm
+        if any(isinstance(p, Rope) for p in parts) and all(rope_of(p) is not None for p in parts):
+            segs = []
+            for p in parts:
+                segs.extend(rope_of(p).segs)
+            return simple_norm(Rope(segs))
         return z3.Concat(*[zstr(p) for p in parts]) if len(parts) > 1 else zstr(parts[0])
 
     def ex_FormattedValue(self, n, env):
